@@ -19,7 +19,7 @@ pub fn check_single(r: &Res) -> Vec<Violation> {
     let name = kind_name(r);
     let bytes = catch_unwind(AssertUnwindSafe(|| {
         let mut v = Vec::new();
-        with_res(r, &mut |o| o.to_aml_bytes(&mut v));
+        with_res(r, &mut |o| v = crate::aml::build::ser_sinks(o));
         v
     }));
     let bytes = match bytes {
